@@ -1833,6 +1833,8 @@ def judge(rec, case: dict, rows: list[dict], info: dict) -> tuple | None:  # noq
                 src = case["old"].get(rel + "/__init__.py", case["old"].get(rel + ".py", ""))
                 if "\n__all__ = []\n" in "\n" + src:
                     fid = "C11-empty-all-is-itself-public"
+            elif r["kind"] == "Public object was removed" and type_guard_switch_hides_attribute(case, r, allowed):
+                fid = ID_GUARD_SWITCH
             return (f"breakage '{r['kind']}' on {r['path']} does not correspond to any difference between the public surfaces "
                     "(private / imported-not-exported object, or nothing changed there)", rows, allowed, fid)
     if not rows and any(e["edit"] == "change_losing_binding" for e in expectations):
@@ -1842,6 +1844,49 @@ def judge(rec, case: dict, rows: list[dict], info: dict) -> tuple | None:  # noq
                                    or d["path"].startswith(e.get("prefix", "\0") + ".") for d in allowed):
             rec.count("incompatible_private_edits_silent")
     return None
+
+
+ID_GUARD_SWITCH = "C11-attribute-bound-in-both-branches-of-type-checking-switch-not-runtime"
+
+
+def type_guard_switch_hides_attribute(case: dict, row: dict, allowed: list) -> bool:
+    """Classifier of ID_GUARD_SWITCH (tight: every clause is read from the case's own sources with CPython's ast).
+
+    The unjustified 'removed' is reported on a re-export path of an object that still exists in the new version but
+    changed kind there (an allowed difference of kind 're-kinded' on that very path), and in the new sources the module
+    defining it binds the name as an ATTRIBUTE in the body of an `if` on TYPE_CHECKING and again in that `if`'s else
+    branch (or a branch of the `elif` chain it is spelled as): Griffe keeps the first (type-guarded) binding, flags the attribute as not available at runtime, and
+    wildcard imports of the module no longer deliver it."""
+    import ast
+
+    same_path = [d for d in allowed if d["path"] == row["path"] and d["kind"] == "Public object points to a different kind of object"]
+    if not same_path or row["path"] == row["canonical"]:
+        return False
+    canonical = same_path[0].get("new_canonical") or same_path[0]["canonical"]
+    modpath, _, name = canonical.rpartition(".")
+    rel = modpath.replace(".", "/")
+    src = case["new"].get(rel + "/__init__.py", case["new"].get(rel + ".py"))
+    if src is None:
+        return False
+
+    def binds_attr(stmts: list) -> bool:
+        for st in stmts:
+            targets = st.targets if isinstance(st, ast.Assign) else [st.target] if isinstance(st, ast.AnnAssign) else []
+            if any(isinstance(t, ast.Name) and t.id == name for t in targets):
+                return True
+        return False
+
+    def binds_in_else(stmts: list) -> bool:
+        # the else branch, or any branch of the `elif` chain it is spelled as
+        if binds_attr(stmts):
+            return True
+        return any(isinstance(st, ast.If) and (binds_attr(st.body) or binds_in_else(st.orelse)) for st in stmts)
+
+    for node in ast.parse(src).body:
+        if isinstance(node, ast.If) and ast.unparse(node.test) in ("TYPE_CHECKING", "typing.TYPE_CHECKING"):
+            if binds_attr(node.body) and binds_in_else(node.orelse):
+                return True
+    return False
 
 
 def cli_exit(old_files: dict, new_files: dict) -> tuple[int, int, str]:
@@ -2011,7 +2056,7 @@ def judge_case(rec, case: dict, with_cli: bool) -> None:  # noqa: ANN001, C901
         return
     if res:
         rec.fail(case, res[0], observed=res[1], expected=res[2], finding=res[3] if len(res) > 3 else None,
-                 tried=["C11-empty-all-is-itself-public"], nontrivial=nontrivial)
+                 tried=["C11-empty-all-is-itself-public", ID_GUARD_SWITCH], nontrivial=nontrivial)
     else:
         tags = tuple(sorted({e["edit"] for e in expectations})) or ("identical",)
         rec.ok(case, nontrivial=nontrivial, tags=tags)
